@@ -18,41 +18,37 @@ Lemma block2_spectrum : forall x y w t d1 e1 d2 e2,
 Proof.
   intros x y w t d1 e1 d2 e2 H tr det. subst tr det.
   unfold block2, half, neqb in H. cbn [ROps o0 o1 oadd osub omul odiv oneg oabs osqrt oleb oeqb oofZ] in H.
-  set (p := 1 / 2 * (y - x)) in *.
-  set (q := p * p + w) in *.
+  remember (1 / 2 * (y - x)) as p eqn:Hpd.
+  remember (p * p + w) as q eqn:Hqd.
   destruct (Rleb 0 q) eqn:Eq.
   - apply Rleb_true in Eq. left.
     rewrite (Rabs_right q) in H by lra.
     pose proof (sqrt_sqrt q Eq) as Hs. pose proof (sqrt_pos q) as Hp.
-    set (r := sqrt q) in *.
+    remember (sqrt q) as r eqn:Hrd. clear Hrd.
     assert (Hc : Rcopysign r p = (if Rltb p 0 then - r else r)).
     { unfold Rcopysign. rewrite (Rabs_right r) by lra. reflexivity. }
-    rewrite Hc in H.
-    destruct (Reqb (p + (if Rltb p 0 then - r else r)) 0) eqn:Ez; cbn [negb] in H.
-    + apply Reqb_true in Ez. inversion H; subst; clear H.
+    rewrite Hc in H. clear Hc.
+    remember (p + (if Rltb p 0 then - r else r)) as z eqn:Hzd.
+    assert (Hz : z * z - 2 * p * z = w).
+    { destruct (Rltb p 0); subst z; nra. }
+    destruct (Reqb z 0) eqn:Ez; cbn [negb] in H.
+    + apply Reqb_true in Ez. inversion H; subst d1 e1 d2 e2; clear H.
+      assert (Hw : w = 0) by (rewrite <- Hz, Ez; ring).
       destruct (Rltb p 0) eqn:Ep.
       * apply Rltb_true in Ep. exfalso. lra.
-      * apply Rltb_false in Ep. assert (p = 0) by lra. assert (r = 0) by lra.
-        assert (q = 0) by (rewrite <- Hs; subst r; nra).
-        assert (w = 0) by (unfold q in *; nra).
-        assert (y = x) by (unfold p in *; lra).
-        repeat split; try reflexivity; subst; nra.
+      * apply Rltb_false in Ep. assert (p = 0) by lra.
+        repeat split; try reflexivity; nra.
     + apply Reqb_false in Ez.
-      set (z := p + (if Rltb p 0 then - r else r)) in *.
-      assert (Hz : z * z - 2 * p * z = w).
-      { unfold z. destruct (Rltb p 0); unfold q in Hs; nra. }
       inversion H; subst d1 e1 d2 e2; clear H.
       assert (Hw : w / z = z - 2 * p). { rewrite <- Hz. field. exact Ez. }
-      rewrite Hw. repeat split; try reflexivity; unfold p; nra.
+      rewrite Hw. repeat split; try reflexivity; nra.
   - apply Rleb_false in Eq. right.
     rewrite (Rabs_left q) in H by lra.
     assert (Hq : 0 <= - q) by lra.
     pose proof (sqrt_sqrt (- q) Hq) as Hs. pose proof (sqrt_lt_R0 (- q) ltac:(lra)) as Hp.
-    set (r := sqrt (- q)) in *.
+    remember (sqrt (- q)) as r eqn:Hrd. clear Hrd.
     inversion H; subst d1 e1 d2 e2; clear H.
-    repeat split; try reflexivity; try lra.
-    + unfold p. lra.
-    + unfold q, p in *. nra.
+    repeat split; try reflexivity; try lra; nra.
 Qed.
 
 (* ------------------------------------------------------------------------------------------ *)
@@ -114,7 +110,7 @@ Proof.
   - rewrite (square_row i HA Hi). exact Hy.
   - intros k Hk. rewrite (square_row i HA Hi) in Hk.
     rewrite (Hrel i k Hi Hk), (Hvy k Hk).
-    field. split; apply Hnz; assumption.
+    field; repeat split; apply Hnz; assumption.
 Qed.
 
 Lemma nth_map_mul (c : R) l j : nth j (map (fun x => x * c) l) 0 = nth j l 0 * c.
@@ -182,7 +178,7 @@ Proof.
   - rewrite rcol_length, (square_row i HB Hi'). exact HB1.
   - rewrite rcol_length, (square_row i HB Hi'). exact HA1.
   - intros k Hk. rewrite (square_row i HB Hi') in Hk. rewrite !nth_rcol.
-    rewrite (Hrel i k Hi' Hk), (Hrel k i Hk Hi'). field. split; apply Hnz; assumption.
+    rewrite (Hrel i k Hi' Hk), (Hrel k i Hk Hi'). field; repeat split; apply Hnz; assumption.
 Qed.
 
 (* ------------------------------------------------------------------------------------------ *)
@@ -198,7 +194,7 @@ Definition sq3 (t : R * R * list R) : R := fst (fst t) * fst (fst t) - snd (fst 
 
 Lemma rlsum_perm : forall l l' : list R, Permutation l l' -> rlsum l = rlsum l'.
 Proof.
-  unfold rlsum, lsum. induction 1; cbn; try lra. congruence.
+  unfold rlsum, lsum. induction 1; cbn; try lra; congruence.
 Qed.
 
 Lemma eigpairs_perm_invariant : forall A (L L' : list (R * R * list R)),
